@@ -41,8 +41,9 @@ func main() {
 		budget := fs.Int("budget-s", 10, "")
 		maxRuns := fs.Int("max-runs", 0, "")
 		out := fs.String("out", "", "")
+		wtier := fs.String("tier", "quick", "")
 		_ = fs.Parse(os.Args[2:])
-		spec := sim.Checks[*prop]
+		spec := sim.SpecFor(*prop, *wtier)
 		wo := sim.RunWorker(spec, *seed, *worker, time.Duration(*budget)*time.Second, *maxRuns)
 		b, _ := json.Marshal(wo)
 		if err := os.WriteFile(*out, b, 0o644); err != nil {
